@@ -3,13 +3,13 @@ import evmrun
 from vlib import *
 
 MANIFEST_ENTRY = dict(engine="EvmCosmos", design="§4 C04",
-    technique="TLA+ spec EvmCosmos.tla (AuthProblems: named account must be signer or immediate caller; caller != signer needs a live grant of the right type covering validator and amount; SpendGrant: exact allowance arithmetic) ; EvmCosmosGen.tla enumerates the identity matrix x grant states and all length-3 sequences of approve/increase/decrease/revoke/spend, model-checked by TLC; every scenario executed by real DeliverTx; TLC trace spec evaluates the authorization clauses on every successful call and compares the authz store with the running allowance",
+    technique="TLA+ spec EvmCosmos.tla (AuthProblems: named account must be signer or immediate caller; caller != signer needs a live grant of the right type covering validator and amount; SpendGrant: exact allowance arithmetic) ; EvmCosmosGen.tla enumerates the identity matrix x grant states and all length-3 sequences of approve/increase/decrease/revoke/spend, model-checked by TLC; every scenario executed by real DeliverTx; TLC trace spec evaluates the authorization clauses on every successful call and compares the authz store with the running allowance; EvmCosmosRand.tla draws random call trees (150 in the quick tier, 15000 in the thorough tier) that are executed on the real chain and judged by the same trace specification",
     text="For every successful state-changing precompile call observed in a real transaction the trace specification checks who was acted upon (signer or immediate caller only), that a live grant of the right type existed when the caller is not the signer, covering validator and amount, and that the grant store after the transaction equals the allowance computed by the specification (exact decrease, deletion when used up, never overspent) - over the full identity matrix {signer, caller, third party} x methods x grant states {absent, unlimited, exact, too small, larger, expired, wrong validator, wrong type} and all sequences of three allowance operations.",
     note="Staking grants only (ICS-20 and ERC-20 style grants not exercised); grants are set up with authz MsgGrant before the transaction or by the approve family inside it; bounded scenario space.")
 
 
 def run(c):
-    evmrun.run_family(c, "C04", "C04", nquick=8000, nrand=(0, 15000))
+    evmrun.run_family(c, "C04", "C04", nquick=8000, nrand=(150, 15000))
 
 
 def replay(path, quiet=False):
